@@ -326,3 +326,60 @@ func strNotVar(s *SymStr) *smt.Term {
 	}
 	return smt.Not(smt.Same(s.Ch[0], bv8('?')))
 }
+
+// uniqueString: the one value the path condition leaves for s, if there is exactly one (two solver calls:
+// a model, then "can it be anything else?").
+func (ex *Exec) uniqueString(s *SymStr) (string, bool) {
+	ex.solverDirty = true
+	ex.solver.Push()
+	if ex.check() != smt.Sat {
+		ex.solver.Pop()
+		ex.solverDirty = false
+		return "", false
+	}
+	names := []string{s.Len.S}
+	for _, ch := range s.Ch {
+		names = append(names, ch.S)
+	}
+	m, err := ex.solver.GetValues(names)
+	ex.solver.Pop()
+	ex.solverDirty = false
+	if err != nil {
+		return "", false
+	}
+	dec := func(t *smt.Term) (uint64, bool) {
+		if len(t.S) > 2 && t.S[:2] == "#x" {
+			u, err := smt.DecodeBV(t.S)
+			return u, err == nil
+		}
+		mv, have := m[t.S]
+		if !have {
+			return 0, false
+		}
+		u, err := smt.DecodeBV(mv)
+		return u, err == nil
+	}
+	n, ok := dec(s.Len)
+	if !ok || int(n) > len(s.Ch) {
+		return "", false
+	}
+	b := make([]byte, n)
+	for i := range b {
+		u, ok := dec(s.Ch[i])
+		if !ok {
+			return "", false
+		}
+		b[i] = byte(u)
+	}
+	cand := string(b)
+	switch eq := strEq(s, cand).(type) {
+	case bool:
+		return cand, eq
+	case *smt.Term:
+		if ex.feasible(smt.Not(eq)) {
+			return "", false
+		}
+		return cand, true
+	}
+	return "", false
+}
